@@ -262,7 +262,10 @@ one_desc(uint64_t idx, uint64_t k, vh_rng *rg)
 {
     vh_arena_reset();
     struct rt_desc d;
-    rt_gen_wellformed(rg, &d, 1);
+    /* the first descriptions of every unit are the curated layouts (register-less areas and reserved windows in
+     * every position), the rest comes from the seeded family */
+    if (k >= RT_NCURATED || !rt_gen_curated(rg, (unsigned)k, &d, 1))
+        rt_gen_wellformed(rg, &d, 1);
     int mutated = !vh_chance(rg, 3, 10);
     if (mutated)
         mutate(rg, &d);
